@@ -125,6 +125,7 @@ type FuncSpec struct {
 	Pure     bool
 	NoPanic  bool
 	Atomic   []Clause
+	GhostArgs  map[string]Expr   // 'ghost-arg callee.name = expr': value for a callee's ghost parameter at the calls made by this function
 	Callbacks  map[string]Clause // 'callback name: expr over r0, r1, ...' assumed of a callback stored in a field
 	OpaquePure bool // 'opaque-calls pure': function values that are not parameters may be called; assumed not to touch the state in question
 	LockInvs []Clause // 'lockinv': invariant of the guarded state, assumed after every acquire, proved at every release
@@ -507,13 +508,14 @@ var clauseKW = map[string]bool{
 	"spec": true, "func": true, "lemma": true, "guarded": true,
 	"requires": true, "ensures": true, "modifies": true, "ghost": true, "loop": true,
 	"invariant": true, "decreases": true, "unfold": true, "inline": true, "trusted": true,
-	"pure": true, "atomic": true, "param": true, "induction": true, "havoc": true, "nopanic": true, "unroll": true, "known-finding": true, "apply": true, "assert": true, "witness": true, "cs-pure": true, "inline-call": true, "lockinv": true, "opaque-calls": true, "signal-channels": true, "callback": true, "immutable": true,
+	"pure": true, "atomic": true, "param": true, "induction": true, "havoc": true, "nopanic": true, "unroll": true, "known-finding": true, "apply": true, "assert": true, "witness": true, "cs-pure": true, "inline-call": true, "lockinv": true, "opaque-calls": true, "signal-channels": true, "callback": true, "immutable": true, "ghost-arg": true,
 }
 
 type rawClause struct {
-	kw   string
-	text string
-	line int
+	kw     string
+	text   string
+	line   int
+	indent int // spaces between the comment marker and the keyword
 }
 
 // ParseContractFile parses the //@ lines of a contract file (or a .spec file where
@@ -524,6 +526,7 @@ func ParseContractFile(path string, src []byte, ps *PkgSpec) error {
 	plain := strings.HasSuffix(path, ".spec")
 	for i, ln := range lines {
 		s := strings.TrimSpace(ln)
+		indent := 0
 		if plain {
 			if s == "" || strings.HasPrefix(s, "//") {
 				continue
@@ -532,6 +535,7 @@ func ParseContractFile(path string, src []byte, ps *PkgSpec) error {
 			if !strings.HasPrefix(s, "//@") {
 				continue
 			}
+			indent = len(s[3:]) - len(strings.TrimLeft(s[3:], " \t"))
 			s = strings.TrimSpace(s[3:])
 			if s == "" {
 				continue
@@ -542,7 +546,7 @@ func ParseContractFile(path string, src []byte, ps *PkgSpec) error {
 			first = s[:j]
 		}
 		if clauseKW[first] {
-			raws = append(raws, rawClause{first, strings.TrimSpace(s[len(first):]), i + 1})
+			raws = append(raws, rawClause{first, strings.TrimSpace(s[len(first):]), i + 1, indent})
 		} else if len(raws) > 0 {
 			raws[len(raws)-1].text += " " + s
 		} else {
@@ -578,9 +582,17 @@ func ParseContractFile(path string, src []byte, ps *PkgSpec) error {
 		}
 		return e.(*ECall).Args, nil
 	}
+	paramIndent := 0
 	for _, rc := range raws {
 		if cur != nil {
 			cur.Text = append(cur.Text, rc.kw+" "+rc.text)
+		}
+		// clauses belong to a `param name:` block only while they are indented deeper than it
+		if curParam != nil && rc.kw != "param" && rc.indent <= paramIndent {
+			curParam = nil
+		}
+		if rc.kw == "param" {
+			paramIndent = rc.indent
 		}
 		switch rc.kw {
 		case "spec":
@@ -632,6 +644,22 @@ func ParseContractFile(path string, src []byte, ps *PkgSpec) error {
 			a := strings.SplitN(parts[0], ".", 2)
 			b := strings.SplitN(parts[2], ".", 2)
 			ps.Guards = append(ps.Guards, &GuardSpec{Type: a[0], Fields: []string{a[1]}, Mutex: b[1]})
+		case "ghost-arg":
+			if cur == nil {
+				return fmt.Errorf("%s:%d: ghost-arg outside func", path, rc.line)
+			}
+			eq := strings.Index(rc.text, "=")
+			if eq < 0 {
+				return fmt.Errorf("%s:%d: ghost-arg callee.name = expr", path, rc.line)
+			}
+			ex, err := ParseExpr(strings.TrimSpace(rc.text[eq+1:]))
+			if err != nil {
+				return fmt.Errorf("%s:%d: %v", path, rc.line, err)
+			}
+			if cur.GhostArgs == nil {
+				cur.GhostArgs = map[string]Expr{}
+			}
+			cur.GhostArgs[strings.TrimSpace(rc.text[:eq])] = ex
 		case "callback":
 			if cur == nil {
 				return fmt.Errorf("%s:%d: callback outside func", path, rc.line)
